@@ -461,4 +461,139 @@ theorem decMeta_encMeta (m : MetaData) (hm : MetaOK m) : decMeta (encMeta m) = s
 theorem decMetaInto_encMeta (m : MetaData) (hm : MetaOK m) : decMetaInto (encMeta m) {} = some m :=
   decMeta_encMeta m hm
 
+/-! ### token -/
+
+structure TokenOK (t : Token) : Prop where
+  type : t.type < two32
+  value : (encBigInt t.value).length < two63
+  properties : t.properties.length < two63
+  reserved : t.reserved.length < two63
+  md : ∀ m, t.md = some m → MetaOK m ∧ (encMeta m).length < two63
+
+theorem decTokenStep_type (v : Nat) (rest : Bytes) (t : Token) (hv : v < two32) :
+    decTokenStep ((0x08 : UInt8) :: encVarint v ++ rest) t = some (rest, { t with type := v }) := by
+  have h2 := decVarint_encVarint v rest (Nat.lt_trans hv two32_lt_two64)
+  have h1 := decTag_tag 0x08 (encVarint v ++ rest) 1 (by decide) (by decide) (by decide)
+  have : (0x08 : UInt8).toNat % 8 = 0 := by decide
+  rw [this] at h1
+  simp [decTokenStep, h1, h2, Nat.mod_eq_of_lt hv]
+
+theorem decTokenStep_value (v : Option Int) (rest : Bytes) (t : Token) (hb : (encBigInt v).length < two63) :
+    decTokenStep (encLenDelim 0x12 (encBigInt v) ++ rest) t = some (rest, { t with value := v }) := by
+  simp [decTokenStep, decTag_len 0x12 2 _ rest (by decide) (by decide) (by decide),
+    decLenDelim_enc _ rest hb, decBigInt_encBigInt]
+
+theorem decTokenStep_properties (b rest : Bytes) (t : Token) (hb : b.length < two63) :
+    decTokenStep (encLenDelim 0x1a b ++ rest) t = some (rest, { t with properties := b }) := by
+  simp [decTokenStep, decTag_len 0x1a 3 b rest (by decide) (by decide) (by decide), decLenDelim_enc b rest hb]
+
+theorem decTokenStep_reserved (b rest : Bytes) (t : Token) (hb : b.length < two63) :
+    decTokenStep (encLenDelim 0x2a b ++ rest) t = some (rest, { t with reserved := b }) := by
+  simp [decTokenStep, decTag_len 0x2a 5 b rest (by decide) (by decide) (by decide), decLenDelim_enc b rest hb]
+
+theorem decTokenStep_md (m : MetaData) (rest : Bytes) (t : Token) (hm : MetaOK m)
+    (hl : (encMeta m).length < two63) (ht : t.md = none) :
+    decTokenStep (encLenDelim 0x22 (encMeta m) ++ rest) t = some (rest, { t with md := some m }) := by
+  simp [decTokenStep, decTag_len 0x22 4 _ rest (by decide) (by decide) (by decide),
+    decLenDelim_enc _ rest hl, ht, decMetaInto_encMeta m hm]
+
+def encMdField (o : Option MetaData) : Bytes :=
+  match o with
+  | none => []
+  | some m => encLenDelim 0x22 (encMeta m)
+
+theorem encToken_eq (t : Token) : encToken t =
+    encVarintField 0x08 t.type ++ (encLenDelim 0x12 (encBigInt t.value) ++ (encBytesField 0x1a t.properties ++
+      (encMdField t.md ++ encBytesField 0x2a t.reserved))) := by
+  unfold encToken encMdField
+  cases t.md <;> simp
+
+theorem decLoop_token (t : Token) (ht : TokenOK t) (fuel : Nat) (r : Token) (rest : Bytes)
+    (h : decLoop decTokenStep fuel rest t = some r) :
+    ∃ n, n ≤ (encToken t).length ∧ decLoop decTokenStep (n + fuel) (encToken t ++ rest) {} = some r := by
+  have e5 := decLoop_field decTokenStep (encBytesField 0x2a t.reserved) rest
+    { t with reserved := [] } t r fuel
+    (fun hne => by
+      have hb : t.reserved ≠ [] := fun he => hne ((encBytesField_eq_nil _ _).mpr he)
+      have e : encBytesField 0x2a t.reserved = encLenDelim 0x2a t.reserved := by simp [encBytesField, hb]
+      rw [e]
+      exact decTokenStep_reserved _ _ _ ht.reserved)
+    (fun he => by
+      have hb := (encBytesField_eq_nil _ _).mp he
+      cases t; simp_all)
+    h
+  have e4 := decLoop_field decTokenStep (encMdField t.md) _
+    { t with reserved := [], md := none } { t with reserved := [] } r _
+    (fun hne => by
+      cases hmd : t.md with
+      | none => simp [encMdField, hmd] at hne
+      | some m =>
+        obtain ⟨hm, hl⟩ := ht.md m hmd
+        simp only [encMdField]
+        have := decTokenStep_md m (encBytesField 0x2a t.reserved ++ rest) { t with reserved := [], md := none } hm hl rfl
+        simpa [hmd] using this)
+    (fun he => by
+      cases hmd : t.md with
+      | none => cases t; simp_all
+      | some m => simp [encMdField, hmd, encLenDelim] at he)
+    e5
+  have e3 := decLoop_field decTokenStep (encBytesField 0x1a t.properties) _
+    { t with reserved := [], md := none, properties := [] } { t with reserved := [], md := none } r _
+    (fun hne => by
+      have hb : t.properties ≠ [] := fun he => hne ((encBytesField_eq_nil _ _).mpr he)
+      have e : encBytesField 0x1a t.properties = encLenDelim 0x1a t.properties := by simp [encBytesField, hb]
+      rw [e]
+      exact decTokenStep_properties _ _ _ ht.properties)
+    (fun he => by
+      have hb := (encBytesField_eq_nil _ _).mp he
+      cases t; simp_all)
+    e4
+  have e2 := decLoop_field decTokenStep (encLenDelim 0x12 (encBigInt t.value)) _
+    { t with reserved := [], md := none, properties := [], value := none }
+    { t with reserved := [], md := none, properties := [] } r _
+    (fun _ => decTokenStep_value _ _ _ ht.value)
+    (fun he => absurd he (encLenDelim_ne_nil _ _))
+    e3
+  have e1 := decLoop_field decTokenStep (encVarintField 0x08 t.type) _
+    {} { t with reserved := [], md := none, properties := [], value := none } r _
+    (fun hne => by
+      have hb : t.type ≠ 0 := fun he => hne ((encVarintField_eq_nil _ _).mpr he)
+      have e : encVarintField 0x08 t.type = 0x08 :: encVarint t.type := by simp [encVarintField, hb]
+      rw [e]
+      exact decTokenStep_type _ _ _ ht.type)
+    (fun he => by
+      have hb := (encVarintField_eq_nil _ _).mp he
+      cases t; simp_all)
+    e2
+  refine ⟨cnt (encVarintField 0x08 t.type) + (cnt (encLenDelim 0x12 (encBigInt t.value)) +
+    (cnt (encBytesField 0x1a t.properties) + (cnt (encMdField t.md) + cnt (encBytesField 0x2a t.reserved)))), ?_, ?_⟩
+  · have c1 := cnt_le_length (encVarintField 0x08 t.type)
+    have c2 := cnt_le_length (encLenDelim 0x12 (encBigInt t.value))
+    have c3 := cnt_le_length (encBytesField 0x1a t.properties)
+    have c4 := cnt_le_length (encMdField t.md)
+    have c5 := cnt_le_length (encBytesField 0x2a t.reserved)
+    rw [encToken_eq]
+    simp only [List.length_append]
+    omega
+  · rw [encToken_eq]
+    simp only [List.append_assoc]
+    simp only [Nat.add_assoc] at e1 ⊢
+    exact e1
+
+/-- C14: token data is lossless — every value, including nil / zero / negative amounts,
+    absent and empty fields. -/
+theorem decToken_encToken (t : Token) (ht : TokenOK t) : decToken (encToken t) = some t := by
+  obtain ⟨n, hn, h⟩ := decLoop_token t ht 1 t [] (by simp [decLoop])
+  simp only [List.append_nil] at h
+  exact decLoop_mono _ _ _ _ _ h _ (by omega)
+
+/-- the encoding of a token is never empty (`Value` is always emitted) -/
+theorem encToken_ne_nil (t : Token) : encToken t ≠ [] := by
+  rw [encToken_eq]
+  intro h
+  have := congrArg List.length h
+  have h2 := encLenDelim_length 0x12 (encBigInt t.value)
+  simp only [List.length_append, List.length_nil] at this
+  omega
+
 end Esdt
